@@ -55,6 +55,10 @@ CHECKS = {
          "History + executable model: recorded sequential histories of InsertObject/DeleteObject/SetResources calls with a fixed query set after every step; each answer of the history engine is compared with a fresh engine built from the current objects (and the reference model); the engine's cache-hit counter (verif hook) identifies answers served from the cache, the event the no-leak clause is about. Held on the K histories / Q queries in the evidence.",
          "Histories are sequential (the property quantifies over interleavings of calls, not threads), so refinement against the fresh engine is exact; model state = objects of the successful calls.",
          "runtime monitoring: recorded call histories checked against a fresh-engine/model oracle, cache-hit hook", "DESIGN.md §5 C15"),
+ 'C11': ('exploration',
+         "History + executable model on the REAL ConnectionSet/PortSet types (alias export): random operation programs over a pool of live values, after every step every value is compared with a three-bitset model, operands are checked unmodified, alias probes (incl. the in-place port mutators) must not show through other values, canonicity/Equal/String/ContainedIn are checked; named-port values only for the clauses the statement makes. Held on the K programs in the evidence.",
+         "Operand space = values reachable from MakeConnectionSet and single-protocol sets through the listed operations.",
+         "runtime monitoring: operation histories on live values checked against an executable set model", "DESIGN.md §5 C11"),
 }
 
 NOT_YET = "check not built yet (construction in progress, see DESIGN.md section 9)"
